@@ -40,6 +40,15 @@ theorem forPairs_noOT {f : Pair → M Value} {c : Ctx} (hc : c.enable = false) (
     refine .bind (forPairs_noOT hc hin hf kvs) fun vs c2 hvs => ⟨(forPairs_forall₂ hin hc hvs).1, ?_⟩
     exact .pure _ c
 
+/-- the row body run pair by pair with a nil context (join / list / int_list / float_list in batch) -/
+theorem rowWiseNoCtx_noOT {f : Pair → M Value} (hin : ∀ kv, Inert (f kv))
+    (hf : ∀ kv, NoOTAt (f kv) Ctx.none) (chunk : List Pair) (c : Ctx) : NoOTAt (rowWiseNoCtx f chunk) c := by
+  intro e c' h
+  unfold rowWiseNoCtx at h
+  rcases hx : forPairs f chunk Ctx.none with ⟨r, d⟩
+  rw [hx] at h; simp at h
+  exact forPairs_noOT (c := Ctx.none) rfl hin hf chunk e d (by rw [hx, h.1])
+
 theorem binop_noOT {e l r : Expr} {kl kr : Kind} {F : Nat → List Value → List Value → Except Err (List Value)}
     (hkl : kindOf l = some kl) (hkr : kindOf r = some kr)
     (hb : ∀ chunk, execBatch e chunk = (do
@@ -141,8 +150,8 @@ mutual
                 simp only [hn, hf, hb]
                 rw [if_neg h1, if_neg h2]
                 refine .ite (vecBody_noOT b args hargs chunk c hc) ?_
-                exact forPairs_noOT hc (fun kv => rowBody_inert b args kv)
-                  (fun kv => (rowBody_sound b args hargs kv c hc).2) chunk
+                exact rowWiseNoCtx_noOT (fun kv => rowBody_inert b args kv)
+                  (fun kv => (rowBody_sound b args hargs kv Ctx.none rfl).2) chunk c
     | .binop p op l r, k, h => by
       have ihr : ∀ k, kindOf r = some k → BatchSound r := fun k hk => batch_sound_core r k hk
       cases op with
@@ -407,16 +416,16 @@ mutual
       c.enable = false → NoOTAt (vecBody b args chunk) c
     | .join, args, h, chunk, c, hc => by
       rw [vecBody]
-      exact forPairs_noOT hc (fun kv => rowBody_inert .join args kv) (fun kv => (rowBody_sound .join args h kv c hc).2) chunk
+      exact rowWiseNoCtx_noOT (fun kv => rowBody_inert .join args kv) (fun kv => (rowBody_sound .join args h kv Ctx.none rfl).2) chunk c
     | .toList, args, h, chunk, c, hc => by
       rw [vecBody]
-      exact forPairs_noOT hc (fun kv => rowBody_inert .toList args kv) (fun kv => (rowBody_sound .toList args h kv c hc).2) chunk
+      exact rowWiseNoCtx_noOT (fun kv => rowBody_inert .toList args kv) (fun kv => (rowBody_sound .toList args h kv Ctx.none rfl).2) chunk c
     | .intList, args, h, chunk, c, hc => by
       rw [vecBody]
-      exact forPairs_noOT hc (fun kv => rowBody_inert .intList args kv) (fun kv => (rowBody_sound .intList args h kv c hc).2) chunk
+      exact rowWiseNoCtx_noOT (fun kv => rowBody_inert .intList args kv) (fun kv => (rowBody_sound .intList args h kv Ctx.none rfl).2) chunk c
     | .floatList, args, h, chunk, c, hc => by
       rw [vecBody]
-      exact forPairs_noOT hc (fun kv => rowBody_inert .floatList args kv) (fun kv => (rowBody_sound .floatList args h kv c hc).2) chunk
+      exact rowWiseNoCtx_noOT (fun kv => rowBody_inert .floatList args kv) (fun kv => (rowBody_sound .floatList args h kv Ctx.none rfl).2) chunk c
     | .lower, [a], h, chunk, c, hc => by
       simp only [argsOk] at h
       exact unary_body_noOT rfl (beq_some h) (batch_sound_core a _ (beq_some h)) chunk c hc
